@@ -3,6 +3,7 @@ package w
 
 import (
 	"math/rand"
+	"runtime"
 	"sync"
 	"sync/atomic"
 
@@ -372,4 +373,105 @@ func ClaimGood(total int, f func(int)) {
 	for g := 0; g < 4; g++ {
 		<-done
 	}
+}
+
+// want:WORKERS with one CPU nothing is started.
+func PoolBad(jobs <-chan int, f func(int)) {
+	n := runtime.GOMAXPROCS(0) - 1
+	var wg sync.WaitGroup
+	for i := 0; i < n; i++ {
+		wg.Add(1)
+		go func() {
+			defer wg.Done()
+			for j := range jobs {
+				f(j)
+			}
+		}()
+	}
+	wg.Wait()
+}
+
+// clean:WORKERS
+func PoolGood(jobs <-chan int, f func(int)) {
+	n := runtime.GOMAXPROCS(0) - 1
+	if n < 1 {
+		n = 1
+	}
+	var wg sync.WaitGroup
+	for i := 0; i < n; i++ {
+		wg.Add(1)
+		go func() {
+			defer wg.Done()
+			for j := range jobs {
+				f(j)
+			}
+		}()
+	}
+	wg.Wait()
+}
+
+// want:PARTITION the tail of the items is nobody's.
+func ChunkSizeFloor(items []int, workers int, f func(int)) {
+	size := len(items) / workers
+	essentials.ConcurrentMap(workers, workers, func(k int) {
+		for i := k * size; i < (k+1)*size; i++ {
+			f(items[i])
+		}
+	})
+}
+
+// clean:PARTITION the last worker takes the tail.
+func ChunkSizeTail(items []int, workers int, f func(int)) {
+	size := len(items) / workers
+	essentials.ConcurrentMap(workers, workers, func(k int) {
+		end := (k + 1) * size
+		if k == workers-1 {
+			end = len(items)
+		}
+		for i := k * size; i < end; i++ {
+			f(items[i])
+		}
+	})
+}
+
+// want:W.READ the shared totals are read before the lock is taken.
+func SumBad(parts [][]float64) []float64 {
+	total := make([]float64, len(parts[0]))
+	var lock sync.Mutex
+	var wg sync.WaitGroup
+	for g := 0; g < len(parts); g++ {
+		wg.Add(1)
+		go func(g int) {
+			defer wg.Done()
+			local := make([]float64, len(total))
+			for i, x := range parts[g] {
+				local[i] = total[i] + x
+			}
+			lock.Lock()
+			defer lock.Unlock()
+			copy(total, local)
+		}(g)
+	}
+	wg.Wait()
+	return total
+}
+
+// clean:W.READ
+func SumGood(parts [][]float64) []float64 {
+	total := make([]float64, len(parts[0]))
+	var lock sync.Mutex
+	var wg sync.WaitGroup
+	for g := 0; g < len(parts); g++ {
+		wg.Add(1)
+		go func(g int) {
+			defer wg.Done()
+			lock.Lock()
+			defer lock.Unlock()
+			for i, x := range parts[g] {
+				total[i] = total[i] + x
+			}
+		}(g)
+	}
+	wg.Wait()
+	return total
 }
